@@ -19,8 +19,11 @@ fn main() {
         "C01" => props::c01::run(&mut ctx),
         "C02" => props::c02::run(&mut ctx),
         "C03" => props::c03::run(&mut ctx),
+        "C04" => props::c04::run(&mut ctx),
         "C05" => props::c05::run(&mut ctx),
         "C06" => props::c06::run(&mut ctx),
+        "C07" => props::c07::run(&mut ctx),
+        "C08" => props::c08::run(&mut ctx),
         other => {
             eprintln!("zv: unknown property {other}");
             std::process::exit(3);
